@@ -197,6 +197,10 @@ func (x *FileSyntax) updateLine(line *Line, tokens ...string) {
 // markRemoved modifies line so that it (and its end-of-line comment, if any)
 // will be dropped by (*FileSyntax).Cleanup.
 func (line *Line) markRemoved() {
+	if line == nil {
+		// The directive was already dropped: its entry has been cleared.
+		return
+	}
 	line.Token = nil
 	line.Comments.Suffix = nil
 }
